@@ -483,6 +483,7 @@ Proof.
   - destruct (find_proc _ w) as [p|]; [|discriminate]. inv_binds Hc. inversion Hc; subst. apply G_same. reflexivity.
   - destruct (find_proc _ w) as [p|]; [|discriminate]. inversion Hc; subst. apply G_same. reflexivity.
   - inversion Hc; subst. apply G_same. reflexivity.
+  - inv_binds Hc. inversion Hc; subst. apply G_same. reflexivity.
 Qed.
 
 Lemma fresh_outs s o1 o2 : fresh (s, o1) -> fresh (s, o2).
